@@ -585,6 +585,7 @@ func timerOwner(fld *types.Var, fns []*ssa.Function) *types.Struct {
 }
 
 func init() {
+	register("C05", &core.Rule{ID: "C05.19", Title: "the shard loop never blocks for ever in the drain of its batch timer (a wedged shard delivers nothing it accepted afterwards, nor what it holds at Shutdown)", Mod: core.ModCBP, Floor: 1, Run: c11_8, Canary: c11_8Canary})
 	register("C11", &core.Rule{ID: "C11.8", Title: "batch timer typestate: the drain after Stop() never runs on a timer whose channel is already empty and that was not re-armed", Mod: core.ModCBP, Floor: 1, Run: c11_8, Canary: c11_8Canary})
 }
 
